@@ -50,6 +50,9 @@ type c27 struct {
 	decls map[*types.Func]*FuncInfo
 	prod  map[string]*c27set // "T.F" -> producible values
 	used  map[string]bool    // "T.F": a method of T prints recv.F through the enum's own String
+	// filled by R-4 (c27r5.go): per node type, which fields each construction site sets to something non-zero
+	sites    map[*types.Named][]map[string]bool
+	assigned map[string]bool
 }
 
 type c27set struct {
@@ -77,6 +80,7 @@ func c27new() *c27set { return &c27set{vals: map[int64]bool{}} }
 
 func runC27(r *Run) {
 	r.Exhaust = true
+	c27state = nil
 	c := &c27{r: r, enums: map[*types.Named][]*types.Const{}, decls: map[*types.Func]*FuncInfo{}, prod: map[string]*c27set{}, used: map[string]bool{}}
 	c.astPk = r.P.Pkg("ast")
 	if !r.Anchor("R-1", "package ast", c.astPk != nil) {
@@ -198,6 +202,7 @@ func runC27(r *Run) {
 	}
 	r.Require("R-1", 90)
 	r.Require("R-3", 3)
+	c27state = c // read by the printing rules R-4 … R-7 (c27r4.go …)
 }
 
 // ---------------------------------------------------------------------------
@@ -823,6 +828,12 @@ func (c *c27) checkFunc(fi *FuncInfo, spell map[*types.Named]map[int64]string, f
 				case defaultOK:
 					o.OK("%s handled by the default clause (%s)", cst.Name(), why)
 				default:
+					// the method may handle the value on another path (a guarded table before the switch):
+					// evaluate it for this value (c27r4.go)
+					if s, ok := c.enumMethodValue(fi, recv, et, n.Tag, v); ok {
+						o.OK("%s is not handled by this switch but on another path of %s, which returns %q for it (%s)", cst.Name(), fi.Name(), s, why)
+						break
+					}
 					o.Bad("%s has no case in the switch over %s of %s: %s (%s)", cst.Name(), exprStr(n.Tag), fi.Name(), after, why)
 				}
 			}
@@ -889,12 +900,50 @@ func (c *c27) checkFunc(fi *FuncInfo, spell map[*types.Named]map[int64]string, f
 				case has:
 					o.OK("%s -> entry %d %q of the table (%s)", cst.Name(), v, mapping[v], why)
 				default:
+					// the index may be guarded by a range test and the value handled on another path
+					if s, ok := c.enumMethodValue(fi, recv, et, n.Index, v); ok {
+						o.OK("%s (= %d) does not reach the table indexed in %s: the method returns %q for it on another path (%s)", cst.Name(), v, fi.Name(), s, why)
+						break
+					}
 					o.Bad("%s (= %d) has no entry in the table indexed in %s, which has %d entries: indexing panics (%s)", cst.Name(), v, fi.Name(), len(elems), why)
 				}
 			}
 		}
 		return true
 	})
+}
+
+// enumMethodValue evaluates the method fi of the enum type et for the receiver value v, when tag is the
+// receiver itself, and returns the constant non-empty string it yields on every path (c27r4.go).
+func (c *c27) enumMethodValue(fi *FuncInfo, recv *types.Var, et *types.Named, tag ast.Expr, v int64) (string, bool) {
+	if recv == nil || !types.Identical(recv.Type(), et) {
+		return "", false
+	}
+	id, ok := ast.Unparen(tag).(*ast.Ident)
+	if !ok || fi.Pkg.TypesInfo.Uses[id] != recv {
+		return "", false
+	}
+	ev := c27newEv(c)
+	runs, inc := ev.explore(16, func() (c27v, *c27node) { return ev.invoke(fi, c27int{v}, nil, "n"), nil })
+	if inc != "" || len(runs) == 0 {
+		return "", false
+	}
+	out := ""
+	for i, rn := range runs {
+		if rn.fail != "" || rn.halted {
+			return "", false
+		}
+		st, ok := rn.out.(c27str)
+		if !ok {
+			return "", false
+		}
+		l, ok := c27allLit(st)
+		if !ok || strings.TrimSpace(l) == "" || i > 0 && l != out {
+			return "", false
+		}
+		out = l
+	}
+	return out, true
 }
 
 // c27panicsAfter reports whether the statement list containing the switch ends in a panic.
